@@ -10,12 +10,14 @@ import logging
 import subprocess as sp
 
 from bumpver import pathlib as pl
+from bumpver import _verif
 
 logger = logging.getLogger("bumpver.hooks")
 
 
 def run(path: str, old_version: str, new_version: str) -> None:
     env = dict(os.environ, BUMPVER_OLD_VERSION=old_version, BUMPVER_NEW_VERSION=new_version)
+    _verif.emit("hook.start", path=path, old=old_version, new=new_version)
 
     try:
         # Python2 compatibility
@@ -30,6 +32,7 @@ def run(path: str, old_version: str, new_version: str) -> None:
                 for line in iter(err.readline, b''):
                     logger.error(f"\t{line.decode('utf8').strip()}")
         proc.wait()
+        _verif.emit("hook.end", path=path, returncode=proc.returncode)
     except IOError as err:
         logger.error(f"\t{err}")
         logger.error("Script exited with an error. Stopping")
